@@ -115,12 +115,15 @@ impl Writer {
 
 impl Write for Writer {
     fn write(&mut self, buf: &[u8]) -> std::io::Result<usize> {
-        self.builder.input(buf);
-        if mmap_write(&mut self.mmap, &mut self.mmap_pos, &mut self.tmpfile, buf)? {
-            Ok(buf.len())
+        // Only hash what actually went into the file: a write may be short (or
+        // fail), and the caller then sends the rest of the buffer again.
+        let written = if mmap_write(&mut self.mmap, &mut self.mmap_pos, &mut self.tmpfile, buf)? {
+            buf.len()
         } else {
-            self.tmpfile.write(buf)
-        }
+            self.tmpfile.write(buf)?
+        };
+        self.builder.input(&buf[..written]);
+        Ok(written)
     }
 
     fn flush(&mut self) -> std::io::Result<()> {
@@ -316,7 +319,6 @@ impl AsyncWrite for AsyncWriter {
 
                         // Start the operation asynchronously.
                         *state = State::Busy(crate::async_lib::spawn_blocking(|| {
-                            inner.builder.input(&inner.buf);
                             let mapped = mmap_write(
                                 &mut inner.mmap,
                                 &mut inner.mmap_pos,
@@ -328,6 +330,12 @@ impl AsyncWrite for AsyncWriter {
                                 Ok(false) => inner.tmpfile.write(&inner.buf),
                                 Err(e) => Err(e),
                             };
+                            // Only hash what actually went into the file: a
+                            // write may be short (or fail), and the caller
+                            // then sends the rest of the buffer again.
+                            if let Ok(written) = res {
+                                inner.builder.input(&inner.buf[..written]);
+                            }
                             inner.last_op = Some(Operation::Write(res));
                             State::Idle(Some(inner))
                         }));
